@@ -48,6 +48,8 @@ def float_inputs(rnd, n_random, lo_exp=30):
             x = a / 2.0 ** (k + 5)
             if 0 < x < 1:
                 xs.append((x, False))
+    for tiny in (1e-17, 2.0 ** -53, 2.0 ** -54, 1e-20, 5e-324, 1.0 - 2.0 ** -53, 0.9999999999999999):
+        xs.append((tiny, True))
     for _ in range(n_random):
         xs.append((rnd.random() ** rnd.choice([1, 2, 4, 8]), False))
         xs.append((10 ** -rnd.uniform(0.1, 8), False))
@@ -81,8 +83,12 @@ def run(focus, tier, seed):
         cases.append({"id": cid, "kind": "cms", "num": L(n1), "e": e1, "num2": L(n2), "e2": e2, "a": L(s.width), "b": s.depth, "c": [0]})
         meta[cid] = {"kind": "cms", "confidence": conf, "error_rate": er, "width": s.width, "depth": s.depth, "near": near or near2}
         if s.width * s.depth <= 4096 and idx % 9 == 0:
-            g = P.CountMinSketch.frombytes(bytes(s))
-            total.check((g.width, g.depth) == (s.width, s.depth), "C07", "C07.stable_across_reload", ENGINE, {"kind": "cms", "confidence": conf, "error_rate": er}, {"kind": "cms"})
+            try:
+                g = P.CountMinSketch.frombytes(bytes(s))
+                same = (g.width, g.depth) == (s.width, s.depth)
+            except Exception as exc:  # noqa
+                same = False
+            total.check(same, "C07", "C07.stable_across_reload", ENGINE, {"kind": "cms", "confidence": conf, "error_rate": er, "width": s.width, "depth": s.depth}, {"kind": "cms"})
     # ---- cuckoo: error_rate x bucket_size
     for idx, (er, near) in enumerate(fl):
         for bs in ((1, 2, 4, 8) if idx % 3 == 0 else (4,)):
@@ -90,7 +96,9 @@ def run(focus, tier, seed):
                 c = P.CuckooFilter.init_error_rate(er, capacity=4, bucket_size=bs)
                 c2 = P.CountingCuckooFilter.init_error_rate(er, capacity=4, bucket_size=bs)
             except Exception as exc:  # noqa
-                total.fail("C07", "C07.constructor_raises", ENGINE, {"kind": "cuckoo", "error_rate": er, "bucket_size": bs, "raised": repr(exc)}, {"kind": "cuckoo"})
+                n0, e0 = ratio(er)
+                if bs * (1 << (e0 + 1)) <= n0 * (1 << 32):  # the claim covers rates reachable with <= 32 fingerprint bits
+                    total.fail("C07", "C07.constructor_raises", ENGINE, {"kind": "cuckoo", "error_rate": er, "bucket_size": bs, "raised": repr(exc)}, {"kind": "cuckoo"})
                 continue
             fb = c.fingerprint_size_bits
             total.check(fb == c2.fingerprint_size_bits, "C07", "C07.deterministic", ENGINE, {"kind": "cuckoo", "error_rate": er, "bucket_size": bs}, {"kind": "cuckoo"})
